@@ -100,6 +100,23 @@ CHECKS.update({
             "The quantifier over all strings is explored, not exhausted. Timezone names are drawn from the resolvable ones; languages, locales and formats are valid in the valid cases.",
             "DESIGN.md 4 C02"),
 })
+CHECKS.update({
+    "C05": ("exploration",
+            "exhaustive walk over the vocabulary exported from the tree (every month / weekday name of every language and regional locale, NORMALIZE on and off) through the public API; domain (single meaning) and expected value decided by TLC on the ordered-override model of the dictionary (Vocabulary.tla / T_C05.tla), whose predicted dictionary value is also compared with the real dictionary's",
+            "All 205 languages and 299 locales, about 15k (locale, name) pairs: 'D <name> YYYY' probes and weekday-alone probes at reference days 8..24, both NORMALIZE values (quick: 3 days, 1 year, 3 reference days, locales without names of their own sampled; thorough: 28 days, 2 years, 17 reference days). TLC decides for each probe whether the name has a single meaning under the dictionary-construction model, what date is demanded, and whether the model's last-write-wins value equals the dictionary the code built. The 36 failing (language, word) pairs of the unchanged tree are listed individually as known findings.",
+            "Trusted: TLC, the projection of the vocabulary (lower-casing, NFKD, the conflict rule of NormalizedDictionary are computed in Python with the tree's own helpers). The data files are their own oracle for which key a word is listed under (C16 ties them to the sources).",
+            "DESIGN.md 4 C05"),
+    "C06": ("exploration",
+            "exhaustive walk over every fixed relative phrase and every instantiable counted pattern of every language and locale; each result compared by TLC (T_C06.tla) with the real result of the canonical English expression and with the value the relative-parser specification (Freshness.tla, bound by C04) assigns to the canonical key",
+            "All languages and locales: about 3.4k fixed phrases and the counted patterns of the shape 'text + one number group' instantiated with counts {1, 2, 11} (thorough {0,1,2,3,11,45,120,1.5,2,5}) at a month-end reference time (thorough 3 reference times incl. Feb 29): about 43k probes in quick. TLC decides the domain (phrase listed under one key) and both comparisons. The 27 failing (language, phrase) pairs of the unchanged tree are listed individually as known findings.",
+            "Trusted: TLC, the pattern instantiation (optional letters dropped, \\s* as nothing), the canonical-key parser of the harness. Patterns with further regex syntax are outside the domain.",
+            "DESIGN.md 4 C06"),
+    "C14": ("model_checking",
+            "TLA+ machine of parse_with_formats (Formats.tla) model-checked with TLC against the oracle of O_C14.tla over all subsets of stated parts; a family of 41 formats rendered with English names and with every language's single-meaning names, judged by TLC (T_C14.tla) with a bracketed clock",
+            "TLC checks machine = oracle for every subset of {year, month, day, time} x dates x 9 preference pairs x clock dates (733k states). Real calls: 41 formats (numeric, named, 12h/24h, %f, two-digit years, partial and year-less formats) x seeded datetimes 1900..2100 with English names, and %B / %A formats with the first single-meaning name of every language; the raw-match precedence clause is part of the oracle (a foreign word that is also an English name is read as English). Failures on words that are C05 findings are listed as C14 findings.",
+            "Trusted: TLC, CPython strptime as the raw reading, the system clock bracketed around each call. Localized names are checked with full-name directives only: the library translates every localized name to the full English name, so %b / %a formats with localized names are served by the heuristic fallback (documented observation).",
+            "DESIGN.md 4 C14"),
+})
 NOT_YET = {}
 
 def main():
